@@ -274,7 +274,7 @@ Definition spfmx (domain tok : bytes) : Cres (Z * list qev) :=
               let all := concat (map snd l) in
               if client_v4 X
               then (if existsb (fun a => is_v4mapped a && ip4_matchnet (s_client X) a l4) all then SPF_PASS else SPF_NONE)
-              else (if existsb (fun a => ip6_matchnet (s_client X) a l6) all then SPF_PASS else SPF_NONE)
+              else (if existsb (fun a => negb (is_v4mapped a) && ip6_matchnet (s_client X) a l6) all then SPF_PASS else SPF_NONE)
         end in
       Ok (res, q ++ [QM name])
   end.
